@@ -197,10 +197,10 @@ Proof.
   unfold idx_set, idx_del. destruct (ix !! skey s) as [ts|] eqn:E.
   - case_bool_decide as He.
     + destruct (decide (s = s')) as [->|Hne].
-      * rewrite lookup_delete, E. simpl. symmetry. exact He.
+      * rewrite lookup_delete. simpl. symmetry. exact He.
       * rewrite lookup_delete_ne; [reflexivity|]. intros H. apply Hne, skey_inj, H.
     + destruct (decide (s = s')) as [->|Hne].
-      * rewrite lookup_insert, E. reflexivity.
+      * rewrite lookup_insert. reflexivity.
       * rewrite lookup_insert_ne; [reflexivity|]. intros H. apply Hne, skey_inj, H.
   - destruct (decide (s = s')) as [->|Hne]; [|reflexivity].
     rewrite E. simpl. set_solver.
